@@ -1,5 +1,6 @@
 """C11 -- surjection proofs: complete, exact and canonically encoded."""
 import os, random, threading
+import vlib
 from c01 import b32, N
 LEVEL = "model_checking"
 MODULE = "C11_Surjection.tla"
@@ -118,9 +119,15 @@ def run(chk):
     if err:
         raise err[0]
     recs = chk.generate(MODULE, "C11_gen.cfg", "gen", timeout=1800 if quick else 7200)
+    # every evaluated case must have left its record (the emission file is shared state on disk: a concurrent run of the same
+    # check would wipe it) -- fewer lines than cases is an infrastructure problem, not a smaller test set
+    cases = (chk.tlc_runs[-1]["states"] - 1) // 2
+    lines = len(vlib.read_ndjson("%s/gen.ndjson" % chk.out))
+    if lines < cases:
+        raise vlib.Infra("only %d of %d generated records were written" % (lines, cases))
     replay_soft(chk, recs, "std", "generated surjection records")
     parser = [r for r in recs if r["e"] in ("SjParse", "SjInit")]
-    replay_soft(chk, parser if quick else recs, "asan", "generated parser/initialize records" if quick else "generated surjection records")
+    replay_soft(chk, parser if quick else recs, "asan", "generated parser and initialize records" if quick else "generated surjection records")
     if not quick:
         for v in ("verify", "i64"):
             replay_soft(chk, recs, v, "generated surjection records")
